@@ -211,7 +211,9 @@ SPECS["C14"] = dict(
                 params={"quick": {"PREEMPTIONS": 2}, "thorough": {"PREEMPTIONS": 3}}, budget={"quick": 60, "thorough": 600}),
            dict(name="udp-fallback", pkg="internal/upstream", run="TestVerifC16", go="go1.26", env=E3ENV, gomaxprocs=1, engines=E3ENGINES, shards=4,
                 files=dict(UPSTREAM_COMMON, **{"harness/upstream/zz_verif_c16_test.go": "internal/upstream/zz_verif_c16_test.go"}),
-                budget={"quick": 60, "thorough": 300})],
+                budget={"quick": 60, "thorough": 300}),
+           dict(name="real-age", pkg="internal/upstream", run="TestVerifC14Age", go="go", engines=("report", "refdns", "env", "sched", "choice"), shards=1, gomaxprocs=4,
+                files={"harness/upstream/zz_verif_c14age_test.go": "internal/upstream/zz_verif_c14age_test.go"}, budget={"quick": 60, "thorough": 60})],
 )
 
 
@@ -361,6 +363,7 @@ SPECS["C13"] = dict(
     assumptions=["gnet delivers each TCP segment as one OnTraffic call and keeps unconsumed bytes buffered"],
     parts=[router_part("framing", "TestVerifC13", ["zz_verif_c13_test.go", "zz_verif_c03_test.go"],
                        params={"quick": {"MAXK": 2, "COARSEK": 3, "FULLSEG": 0, "SHARDDEPTH": 4}, "thorough": {"MAXK": 2, "COARSEK": 4, "FULLSEG": 1, "SHARDDEPTH": 4}}),
+           router_part("long-lived", "TestVerifC03", ["zz_verif_c03_test.go"], shards=2, params={"quick": {"SHARDDEPTH": 1}, "thorough": {"SHARDDEPTH": 1}}),
            router_part("response-size", "TestVerifC09Listeners", ["zz_verif_c09_test.go", "zz_verif_c03_test.go"], shards=4, params={"quick": {"SHARDDEPTH": 2}, "thorough": {"SHARDDEPTH": 2}})],
 )
 
